@@ -72,17 +72,23 @@ func coqBools(b []bool) string {
 // the map iteration order of the claims is not fixed by the property: the plan is given to the model in the
 // order in which the implementation fetched the offsets (then the rest, ascending)
 func orderPlan(plan, order []int64) []int64 {
+	left := map[int64]int{}
+	for _, p := range plan {
+		left[p]++
+	}
 	var out []int64
 	for _, p := range order {
-		if has(plan, p) && !has(out, p) {
+		if left[p] > 0 {
 			out = append(out, p)
+			left[p]--
 		}
 	}
 	rest := append([]int64(nil), plan...)
 	sort.Slice(rest, func(i, j int) bool { return rest[i] < rest[j] })
 	for _, p := range rest {
-		if !has(out, p) {
+		if left[p] > 0 {
 			out = append(out, p)
+			left[p]--
 		}
 	}
 	return out
@@ -160,8 +166,8 @@ func coqCase(cs caseSpec, o obs) string {
 			if x.Call != ci {
 				continue
 			}
-			if x.K == "fetchoff" && !has(order, x.P) {
-				order = append(order, x.P)
+			if x.K == "fetchoff" {
+				order = append(order, x.P) // with repetitions: a plan may name a partition twice
 			}
 		}
 		for _, x := range o.Log {
@@ -356,6 +362,9 @@ func corpus() []caseSpec {
 		// Setup fails: Cleanup still runs, Consume returns the Setup error
 		{Retries: 0, HbRetries: 0, Attempts: 1, Parts: p2, Close: true, Leave: "ok", Calls: []callSpec{
 			{Plan: []int64{0, 1}, SetupOK: false, CleanupOK: true, Trigger: "none"}}},
+		// a plan naming a partition twice: the second ManagePartition fails, no hooks run
+		{Retries: 0, HbRetries: 0, Attempts: 1, InitialOldest: true, Parts: p2, Close: true, Leave: "ok", Calls: []callSpec{
+			{Plan: []int64{1, 0, 0}, SetupOK: true, CleanupOK: true, Trigger: "ctx-steady"}}},
 		// committed offset out of range: the claim starts at the initial position
 		{Retries: 0, HbRetries: 0, Attempts: 1, InitialOldest: true, Parts: []partSpec{{Topic: 0, P: 0, Oldest: 3, Newest: 7, Stored: 1}, {Topic: 0, P: 1, Oldest: 0, Newest: 4, Stored: 9}}, Calls: []callSpec{
 			{Plan: []int64{0, 1}, SetupOK: true, CleanupOK: true, Beh: []behSpec{{P: 0, Quota: -1, Mark: 2}, {P: 1, Quota: -1, Mark: 2}}, Trigger: "ctx-steady"}}},
